@@ -348,8 +348,11 @@ def run(chk, replay=None):
         nterms = rng.randint(1, 6)
         terms = []
         pieces = []
+        kv = Fraction(rng.randint(1, 7), rng.randint(1, 3))          # value of the symbolic gain Ka of factored terms
+        Ka = S.Symbol('Ka', positive=True)
+        dsub = lambda x_: x_.subs({q_: R(kv) for q_ in x_.free_symbols if q_.name == 'Ka'})   # noqa
         for i in range(nterms):
-            kd = rng.choice(['dc', 'cos', 'sin', 'cs', 'tr'])
+            kd = rng.choice(['dc', 'cos', 'sin', 'cs', 'tr', 'fact'])
             c = Fraction(rng.randint(1, 9), rng.randint(1, 3)) * rng.choice([1, -1])
             w = rng.choice([Fraction(2), Fraction(3), Fraction(1, 2)])
             if kd == 'dc':
@@ -362,9 +365,32 @@ def run(chk, replay=None):
                 d = Fraction(rng.randint(1, 9), rng.randint(1, 3))
                 terms.append('ac:%s:%s:0' % (fstr(w), fstr(c))); pieces.append(R(c) * S.cos(R(w) * tt.sympy))
                 terms.append('ac:%s:0:%s' % (fstr(w), fstr(d))); pieces.append(R(d) * S.sin(R(w) * tt.sympy))
+            elif kd == 'fact':
+                # ONE product term: a symbolic gain times a sum of cos and sin of one frequency, left unexpanded
+                d = Fraction(rng.randint(1, 9), rng.randint(1, 3)) * rng.choice([1, -1])
+                terms.append('ac:%s:%s:%s' % (fstr(w), fstr(kv * c), fstr(kv * d)))
+                pieces.append(S.Mul(Ka, R(c) * S.cos(R(w) * tt.sympy) + R(d) * S.sin(R(w) * tt.sympy), evaluate=False))
+                chk.count('decomposition', 'factored-term')
+                # the phasor of ONE product term that holds cos and sin of one frequency (ACChecker combines them into
+                # one amplitude/phase) must be the sum of the phasors of its parts: kv (c - j d)
+                try:
+                    phz = lcapy.expr(pieces[-1]).phasor()
+                    gz = common.gauss_rational(S.expand_complex(dsub(phz.sympy)))
+                    if gz is None:
+                        gz = common.gauss_rational(S.simplify(S.expand_complex(dsub(phz.sympy))))
+                    if gz is not None:
+                        chk.count('oracle', 'factored-phasor-checked')
+                        if gz != (kv * c, -kv * d):
+                            n_cex += 1
+                            chk.counterexample({'kind': 'decompose', 'cause': 'combined-phasor'},
+                                               {'input': {'expression': str(pieces[-1]), 'Ka': fstr(kv)}, 'lcapy': {'phasor()': str(phz), 'value': str(gz)},
+                                                'spec': 'phasor of a cos b + sin-sum = sum of the phasors = %s' % ((kv * c, -kv * d),)},
+                                               'the phasor of %s is not the sum of the phasors of its cos and sin parts' % pieces[-1])
+                except Exception as e:   # noqa
+                    chk.count('lcapy-error', 'factored-phasor:' + type(e).__name__)
             else:
                 terms.append('tr:0:%s' % fstr(c)); pieces.append(R(c) * S.exp(-tt.sympy) * S.Heaviside(tt.sympy))
-        expr = sum(pieces)
+        expr = S.Add(*pieces, evaluate=False) if any('Ka' in str(p_) for p_ in pieces) else sum(pieces)
         rep = drv.ask1('dec.run ' + ' '.join(terms))
         chk.case(('dec', tuple(terms)), True)
         chk.count('decomposition', 'terms=%d' % len(terms))
@@ -382,7 +408,7 @@ def run(chk, replay=None):
             ltoks = [('ep:%s:0:-1' % x.split(':')[2]) if x.startswith('tr:') else x for x in terms]
             lrep = dict(p.split('=', 1) for p in drv.ask1('sup.terms %s %s' % (fstr(s0), ' '.join(ltoks))).split())
             want = c03_extra.parse_gq(lrep['total'])
-            got = lap_at(sup.laplace(), s0, {})
+            got = lap_at(sup.laplace(), s0, {'Ka': kv})
             if got is not None:
                 chk.count('oracle', 'source-expression-laplace-checked')
                 if got != want:
@@ -408,12 +434,14 @@ def run(chk, replay=None):
         ltr = Fraction(0)
         for key, val in dec.items():
             if key == 'dc':
-                g = common.gauss_rational(val.sympy); ldc = g[0]
+                g = common.gauss_rational(dsub(val.sympy)); ldc = g[0]
             elif key == 'x' or key == 's':
                 g = common.gauss_rational(S.simplify(val.sympy / (S.exp(-tt.sympy) * S.Heaviside(tt.sympy)))) if key == 'x' else None
                 ltr = g[0] if g else None
             else:
-                g = common.gauss_rational(S.expand_complex(val.sympy))
+                g = common.gauss_rational(S.expand_complex(dsub(val.sympy)))
+                if g is None:
+                    g = common.gauss_rational(S.simplify(S.expand_complex(dsub(val.sympy))))
                 kk = common.gauss_rational(S.sympify(key))
                 if g is None or kk is None:
                     lac = None
@@ -424,7 +452,7 @@ def run(chk, replay=None):
         if lac is not None and (ldc != mdc or {w: p for w, p in lac.items() if p != (0, 0)} != mac_nz or (ltr is not None and ltr != mtr)):
             # is Lcapy's decomposition itself wrong?  reassemble it and compare with the expression
             back = sup.time().sympy if hasattr(sup, 'time') else None
-            d = S.simplify(S.expand_trig(back - expr)) if back is not None else None
+            d = S.simplify(S.expand_trig(S.expand(dsub(back - expr)))) if back is not None else None
             if d is not None and d != 0:
                 n_cex += 1
                 chk.counterexample({'kind': 'decompose', 'cause': 'reassembly'},
@@ -524,6 +552,8 @@ def run(chk, replay=None):
             n_cex += fn(chk, drv, d, Lx)
             chk.count('stream', nm)
         phase(nm)
+    n_cex += c03_extra.probes(chk, drv, Lx, rng, 2 if quick else 8)
+    phase('probes')
     chk.coverage['rule'] += (' || LAP: RC/RL/RLC templates, 1-2 sources with non-zero phases (ac keyword with phase, complex amplitude, cos+sin, '
                              'phase-shifted) + dc/step/exp/multi-kind, every third an initial-value problem; NOISE: three skeletons, 2-3 noise sources, '
                              'shared/distinct/automatic identifiers, node pairs + branch voltages; NALG: random operands incl. zeros; GROUPS: random '
